@@ -198,6 +198,45 @@ fn c11(seed: u64) {
             }
         }
     }
+    // (4) NEAR-MISS digests: a packet 1 whose digest field is a structured corruption of the right HMAC (one bit, one byte, the same
+    //     bits flipped in bytes 8 / 16 / 24 apart, quarters or halves exchanged, the same garbage over both halves, all-zero, bitwise
+    //     complement) carries NO valid digest (checked here independently, at both positions) and must be echoed exactly like any
+    //     other digest-less packet
+    for &server in &[false, true] {
+        let peer_key = own_key(!server);
+        for &client_scheme in &[true, false] { for &k in &[0usize, 1, 31, 292, 511, 726, 727] {
+            let target = k + if client_scheme { 12 } else { 776 };
+            let good = craft_p1(&mut rng, client_scheme, target, peer_key);
+            let d: Vec<u8> = good[target..target + 32].to_vec();
+            let mut pats: Vec<(String, Vec<u8>)> = vec![];
+            { let mut x = d.clone(); x[0] ^= 1; pats.push(("one bit".into(), x)); }
+            { let mut x = d.clone(); x[17] ^= 0xFF; pats.push(("one byte".into(), x)); }
+            for gap in [8usize, 16, 24] { let mut x = d.clone(); x[3] ^= 0x40; x[3 + gap] ^= 0x40; pats.push((format!("the same bit in two bytes {} apart", gap), x)); }
+            { let mut x = d.clone(); for i in 0..8 { x.swap(i, 8 + i); } pats.push(("first two quarters exchanged".into(), x)); }
+            { let mut x = d.clone(); for i in 0..16 { x.swap(i, 16 + i); } pats.push(("halves exchanged".into(), x)); }
+            { let mut x = d.clone(); for i in 0..16 { let g = (i as u8).wrapping_mul(37).wrapping_add(5); x[i] ^= g; x[16 + i] ^= g; } pats.push(("the same garbage over both halves".into(), x)); }
+            { let mut x = d.clone(); for i in 0..8 { let g = 0xA5u8; x[i] ^= g; x[8 + i] ^= g; x[16 + i] ^= g; x[24 + i] ^= g; } pats.push(("the same garbage over all four quarters".into(), x)); }
+            pats.push(("all zero".into(), vec![0u8; 32]));
+            pats.push(("complement".into(), d.iter().map(|b| !b).collect()));
+            { let mut x = d.clone(); x.reverse(); pats.push(("reversed".into(), x)); }
+            for (what, bad) in pats {
+                if bad == d { continue; }
+                let mut p1 = good.clone(); p1[target..target + 32].copy_from_slice(&bad);
+                let (o1, o2) = (off_client(&p1), off_server(&p1));
+                if p1[o1..o1 + 32] == digest_of(&p1, o1, peer_key) || p1[o2..o2 + 32] == digest_of(&p1, o2, peer_key) { continue; }   // (an accidental valid digest: skip)
+                let mut input = vec![3u8]; input.extend_from_slice(&p1);
+                let mut h = Handshake::new(role(server));
+                match h.process_bytes(&input) {
+                    Ok(HandshakeProcessResult::InProgress { response_bytes }) => {
+                        if response_bytes.len() != 3073 || response_bytes[1537..] != p1[..] {
+                            fail(format!("c11 a packet 1 whose digest field is a corrupted HMAC ({}; server={} scheme={} offset={}) carries no valid digest but was not echoed exactly", what, server, if client_scheme { 1 } else { 2 }, target));
+                        }
+                    }
+                    other => fail(format!("c11 packet 1 with a corrupted digest ({}) gave {:?} server={}", what, other.map(|_| "Completed"), server)),
+                }
+            }
+        } }
+    }
     println!("OK c11: 800 own packets 1, 2912 signed packets 2 (2 roles x 2 schemes x 728 offsets), 100 echoes, all valid against an independent HMAC-SHA256");
 }
 
